@@ -118,6 +118,11 @@ var c20extra = []c20variant{
 	{kind: 3, name: "length/pass-inside", val: "abc", min: 1, max: 5},
 	{kind: 3, name: "length/pass-min-eq", val: "abc", min: 3},
 	{kind: 3, name: "length/pass-max-eq", val: "abc", max: 3},
+	{kind: 4, name: "equals/fail-permutation", val: "_id-12", equal: "_id-21", fails: true},
+	{kind: 4, name: "equals/fail-two-positions", val: "aa", equal: "bb", fails: true},
+	{kind: 4, name: "equals/fail-case", val: "abc", equal: "ABC", fails: true},
+	{kind: 3, name: "length/fail-multibyte-max", val: "Zürich", max: 6, fails: true},
+	{kind: 3, name: "length/pass-multibyte-min", val: "Zürich", min: 7},
 }
 
 func c20build(ck *checker.Checker, t *c20trace, i int, v *c20variant) {
@@ -588,7 +593,7 @@ func c20mutate(rng *rand.Rand, chain []*c20variant, mode int) {
 }
 
 func c20random(rng *rand.Rand) *c20variant {
-	strs := []string{"", "", "a", "ab", "abc", " ", "äöü", "0123456789", strings.Repeat("x", rng.Intn(40))}
+	strs := []string{"", "", "a", "ab", "abc", " ", "äöü", "0123456789", strings.Repeat("x", rng.Intn(40)), "ba", "aa", "bb", "cab", "_id-12", "_id-21", "Zürich", "abc\x00", "ABC"}
 	v := &c20variant{kind: 1 + rng.Intn(8), name: "random"}
 	v.val = strs[rng.Intn(len(strs))]
 	v.equal = strs[rng.Intn(len(strs))]
